@@ -13,7 +13,13 @@ the C output is also compared with the extracted model on the permuted value.
  (iv)  garbage in the unused bits of BIT STRING (in memory: the BER decoder masks them)
  (iv') compare_struct of INTEGER_t follows the values (padding ignored, numeric order)
  (v)   decode-from-variant: long-form / indefinite lengths, constructed OCTET STRING,
-       padded INTEGER contents, XER with white space and comments."""
+       padded INTEGER contents, XER with white space and comments.
+ (vi)  canonical order against length fragmentation: SET OF lists at every 16K fragment
+       boundary (16383 .. 81921 members) in ascending / descending / generated / rotated /
+       shuffled memory orders (`lset` of moddrv_c06.inc; model tied on the sorted order)
+ (vii) SET OF members with different leading tags and lengths (CHOICE over the four tag
+       classes, ANY), DEFAULT components of extension additions in every explicit/absent
+       combination (generated extensible SEQUENCEs)."""
 import sys, os
 sys.path.insert(0, os.path.join(os.path.dirname(os.path.abspath(__file__)), "..", "lib"))
 from vlib import *
@@ -22,6 +28,7 @@ from modbuild import *
 from modcorpus import run_mod
 from c06_util import *
 import c02 as C02
+import zlib
 
 INC = os.path.join(HARNESS, "moddrv_c06.inc")
 SYNS = ("der", "cxer", "cper", "coer")
@@ -79,6 +86,40 @@ def setof_module(name="MS6"):
     return {"name": name, "default": "AUTOMATIC", "defs": defs, "trees": trees, "text": module_text(name, "AUTOMATIC", defs)}
 
 
+def tagged_setof_module(name="MS7"):
+    """SET OF CHOICE whose alternatives begin with tags of all four classes, long tag numbers, an EXPLICIT tag and
+    encodings of different lengths: the members are ordered by their complete encodings (leading tag first)"""
+    I = lambda tag=None, con=None: {"k": "int", "con": con, "tag": tag}
+    so = lambda el, con=None: {"k": "setof", "con": con, "el": el, "tag": None}
+    c1 = {"k": "choice", "ms": [("u", I(), False), ("a", I(("APPLICATION", 1, None)), False), ("c", I(("CONTEXT", 1, None)), False),
+                                ("p", I(("PRIVATE", 1, None)), False), ("h", I(("PRIVATE", 1000, None)), False),
+                                ("o", {"k": "oct", "con": None, "tag": ("CONTEXT", 2, None)}, False), ("b", {"k": "bool", "tag": ("APPLICATION", 7, None)}, False)]}
+    c2 = {"k": "choice", "ms": [("e", I(("CONTEXT", 0, "EXPLICIT")), False), ("u", {"k": "oct", "con": None}, False), ("n", {"k": "null"}, False),
+                                ("s", {"k": "seq", "ms": [("x", I(("CONTEXT", 0, None)), True), ("y", {"k": "bool", "tag": ("CONTEXT", 1, None)}, True)]}, False)]}
+    c3 = {"k": "choice", "ms": [("a", {"k": "bool"}, False), ("b", I(None, (0, 255, False)), False), ("c", {"k": "null"}, False)]}
+    defs = [("C1", so(c1)), ("C2", so(c2)), ("C3", so(c3, (0, 8, False))), ("E1", c1), ("C5", so({"k": "ref", "ref": "C1"})),
+            ("C6", {"k": "seq", "ms": [("n", I(), False), ("m", {"k": "ref", "ref": "C1"}, False)]})]
+    defs = [d for d in defs if d[0] != "E1"]
+    env = dict(defs)
+    trees = {n: resolve(t, "IMPLICIT", env) for n, t in defs}
+    return {"name": name, "default": "IMPLICIT", "defs": defs, "trees": trees, "text": module_text(name, "IMPLICIT", defs)}
+
+
+def tagged_setof_values():
+    """directed values for MS7: leading octets 0x80 and more apart (02 / 81 / c1), three-cycles under a comparison by
+    subtraction, tag of three octets, members of different lengths, equal members"""
+    ch = lambda i, v: ("C", i, v)
+    L = lambda *xs: ("L", list(xs))
+    c1 = [L(ch(0, 5), ch(2, 5)), L(ch(0, 5), ch(3, 5)), L(ch(0, 5), ch(2, 5), ch(3, 5)), L(ch(0, 5), ch(1, 5), ch(2, 5), ch(3, 5)),
+          L(ch(4, 5), ch(3, 5), ch(0, 5)), L(ch(5, b""), ch(5, b"\0"), ch(0, 0)), L(ch(0, 128), ch(0, -128), ch(0, 5)),
+          L(ch(2, 256), ch(0, 1), ch(6, True), ch(1, 0)), L(ch(0, 5), ch(0, 5), ch(3, 5)), L(ch(5, bytes(130)), ch(5, bytes(127)), ch(3, 0))]
+    c2 = [L(ch(0, 5), ch(1, b"\5"), ch(2, None)), L(ch(3, ("S", [("_",), ("_",)])), ch(3, ("S", [("!", 1), ("_",)])), ch(3, ("S", [("_",), ("!", True)])), ch(0, 0)),
+          L(ch(1, b""), ch(1, b"\0"), ch(1, b"\0\0"))]
+    c3 = [L(ch(0, False), ch(1, 0), ch(2, None)), L(ch(0, True), ch(1, 128), ch(1, 64), ch(2, None)), L(ch(2, None), ch(2, None), ch(0, True)),
+          L(ch(1, 255), ch(1, 0), ch(0, False), ch(0, True))]
+    return {"C1": c1, "C2": c2, "C3": c3, "C5": [L(c1[2], c1[0]), L(c1[4], c1[1], c1[8])], "C6": [("S", [7, c1[3]])]}
+
+
 def distinctive_value(tn, tree, rng):
     """values for MS6: member lists with duplicates, prefixes of each other, different lengths"""
     v = value(tree, rng)
@@ -90,7 +131,8 @@ def distinctive_value(tn, tree, rng):
 def model_layer(run, rng, tier, model):
     nm, nt, nv = (8, 5, 5) if tier == "quick" else (40, 6, 10)
     g = Gen(BiasRng(rng))
-    mods = [setof_module("MS6")] + [g.module("M%d" % i, nt) for i in range(nm)]
+    mods = [setof_module("MS6"), tagged_setof_module("MS7")] + [g.module("M%d" % i, nt) for i in range(nm)]
+    directed = {"MS7": tagged_setof_values()}
     build_modules(mods, tag="c06m", moddrv_extra=INC)
     cases = []
     for m in mods:
@@ -102,8 +144,12 @@ def model_layer(run, rng, tier, model):
             tree = m["trees"][tn]
             n = nv + (4 if m["name"] == "MS6" else 0)
             seen = set()
-            for _ in range(n):
-                v = value(tree, rng)
+            dvals = directed.get(m["name"], {}).get(tn, [])
+            for v in dvals + [None] * n:
+                if v is None:
+                    v = value(tree, rng)
+                else:
+                    run.count("model_directed_value")
                 vs = val_str(v)
                 if vs in seen:
                     continue
@@ -292,6 +338,184 @@ def setof_only_difference(kind, mr, r, rr, c):
     return len(r["coer"]) == len(rr["coer"]) and sorted(r["coer"]) == sorted(rr["coer"])
 
 
+
+# ---------------------------------------------------------------- (vi): long SET OF lists against length fragmentation
+
+LONG_ELEM = {"LA": ("int", 256, False), "LB": ("bool", 2, False), "LC": ("int", 256, False), "LD": ("bool", 2, False), "LE": ("bool", 2, False),
+             "LO": ("oct:2", 65536, True), "LS": ("ostr:7", 1 << 40, False)}
+
+
+def long_module(name="ML6"):
+    I8 = {"k": "int", "con": (0, 255, False)}
+    B = {"k": "bool"}
+    so = lambda el, con=None: {"k": "setof", "con": con, "el": el, "tag": None}
+    defs = [("LA", so(I8)), ("LB", so(B)), ("LC", so(I8, (0, 70000, False))), ("LD", so(B, (0, 3, True))), ("LE", so(B, (0, 65535, False))),
+            ("LO", so({"k": "oct", "con": (2, 2, False)})), ("LS", so({"k": "oct", "con": None}))]
+    env = dict(defs)
+    trees = {n: resolve(t, "AUTOMATIC", env) for n, t in defs}
+    return {"name": name, "default": "AUTOMATIC", "defs": defs, "trees": trees, "text": module_text(name, "AUTOMATIC", defs)}
+
+
+def long_plan(rng, tier):
+    """(type, n, a, b, m): directed fragment / length-form boundaries first, random after"""
+    odd = lambda: 2 * rng.below(128) + 1
+    plan = []
+    la = [127, 128, 16383, 16384, 16385, 32767, 32768, 32769, 49152, 49153, 65535, 65536, 65537, 81921]
+    if tier != "quick":
+        la += [2, 129, 21845, 21846, 16386, 49151, 65538, 81919, 81920, 98304, 98305, 131073]
+    for n in la:
+        plan.append(("LA", n, odd(), rng.below(256), 256))
+    for n in [16384, 16385, 65537] + ([32769, 49153, 81921] if tier != "quick" else []):
+        plan.append(("LB", n, 1, rng.below(2), 2))
+    for n in [16385, 65536, 70000] + ([65535, 65537] if tier != "quick" else []):
+        plan.append(("LC", n, odd(), rng.below(256), 256))
+    for n in [4, 16385, 32769] + ([16384, 65537] if tier != "quick" else []):
+        plan.append(("LD", n, 1, rng.below(2), 2))
+    for n in [16385, 65535]:
+        plan.append(("LE", n, 1, rng.below(2), 2))
+    for n in [16385, 32769] + ([65537] if tier != "quick" else []):
+        plan.append(("LO", n, 2 * rng.below(30000) + 1, rng.below(65536), 65536))
+    # members that are themselves fragmented (OCTET STRING of 16K octets and more): a = step of the lengths, b = the shortest
+    plan += [("LS", 5, 1, 16382, 1 << 40), ("LS", 4, 16384, 0, 1 << 40), ("LS", 3, 1, 65535, 1 << 40), ("LS", 6, 126, 1, 1 << 40)]
+    for _ in range(2 if tier == "quick" else 8):
+        tn = rng.choice(["LA", "LA", "LB", "LC", "LO"])
+        n = 16385 + rng.below(70000 - 16385 if tn == "LC" else 74000)
+        m = LONG_ELEM[tn][1]
+        plan.append((tn, n, 2 * rng.below(m // 2) + 1, rng.below(m), 1 + rng.below(m)))
+    return plan
+
+
+def parse_lset(o):
+    """'n=.. der=len:crc cxer=.. cper=.. coer=.. [derhex=.. cperhex=.. coerhex=..]' -> dict | None"""
+    if not o.startswith("n="):
+        return None
+    d = {}
+    for part in o.split():
+        k, _, v = part.partition("=")
+        d[k] = v
+    return d
+
+
+def digest(b):
+    return "%d:%08x" % (len(b), zlib.crc32(b) & 0xffffffff)
+
+
+def long_layer(run, rng, tier, model):
+    m = long_module()
+    build_modules([m], tag="c06l", moddrv_extra=INC)
+    if not m.get("exe"):
+        run.violation("build:module", {"what": "the module of long SET OF types was rejected or its code does not compile", "module": m["text"],
+                                       "asn1c_out": m.get("asn1c_out", "")[-1200:], "build_log": m.get("build_log", "")[-1200:]}, no_input=True)
+        return
+    plan = long_plan(rng, tier)
+    nshuf = 1 if tier == "quick" else 3
+    cases = []
+    for tn, n, a, b, mm in plan:
+        elem, _m, fixed = LONG_ELEM[tn]
+        orders = ["asc", "gen", "desc"]
+        if n > 2:
+            orders.append("rot:%d" % (1 + rng.below(n - 1)))
+        if n > 16384:
+            orders.append("rot:16384")        # exactly one fragment moved from the front to the back
+        orders += ["shuf:%d" % (1 + rng.below(1 << 30)) for _ in range(nshuf)]
+        cases.append({"tn": tn, "n": n, "abm": (a, b, mm), "elem": elem, "fixed": fixed, "orders": orders, "ts": model_str(m["trees"][tn]),
+                      "lines": ["lset %s %s %d %d %d %d %s%s" % (tn, elem, n, a, b, mm, o, " full" if o == "asc" else "") for o in orders]})
+    nproc = 6
+    cost = lambda c: c["n"] * (300 if c["tn"] == "LS" else 1) + 2000
+    # the model on the sorted representation (insertion sort is linear there; its value for any other order: the theorems)
+    mb = spread(cases, nproc, cost)
+    mlines = []
+    for idx in mb:
+        ls = []
+        for i in idx:
+            c = cases[i]
+            vs = lset_model_value(c["elem"], lset_values(c["n"], *c["abm"], "asc"))
+            ls += ["der %s %s" % (c["ts"], vs), "uper 0 %s %s" % (c["ts"], vs), "oer %s %s" % (c["ts"], vs)]
+        mlines.append(ls)
+    mres = par_lines(model, mlines, unlimited_stack=True, workdir=scratch())
+    for idx, ls, (rc, out, err) in zip(mb, mlines, mres):
+        if rc != 0 or len(out) != len(ls):
+            raise RuntimeError("model driver failed on the long lists: rc=%s %s" % (rc, err[-500:]))
+        for j, i in enumerate(idx):
+            cases[i]["model"] = out[3 * j:3 * j + 3]
+    cb = spread(cases, nproc, lambda c: cost(c) * len(c["orders"]))
+    clines = [[l for i in idx for l in cases[i]["lines"]] for idx in cb]
+    cres = par_lines(m["exe"], clines, env=SAN_ENV, workdir=scratch())
+    for idx, ls, (rc, out, err) in zip(cb, clines, cres):
+        if rc != 0 or len(out) != len(ls):
+            if out and rc != 0 and "coer=" not in out[-1] and not out[-1].startswith(("DECFAIL", "BAD")):
+                out = out[:-1]                      # a dying process can leave a partial last line
+            bad = ls[len(out)] if len(out) < len(ls) else None
+            run.violation("crash:C06-long-lists", {"what": "moddrv died (rc=%s): sanitizer report, abort or signal" % rc, "module": m["text"],
+                                                   "command_line": bad, "stderr_tail": err[-2500:]})
+            out = out + ["CRASH"] * (len(ls) - len(out))
+        k = 0
+        for i in idx:
+            cases[i]["out"] = out[k:k + len(cases[i]["lines"])]
+            k += len(cases[i]["lines"])
+    for c in cases:
+        tn, n = c["tn"], c["n"]
+        frag = "n<16K" if n < 16384 else "n=%dx16K%+d" % (round(n / 16384), n - 16384 * round(n / 16384)) if abs(n - 16384 * round(n / 16384)) <= 2 else "n>16K"
+        ref = None
+        for order, l, o in zip(c["orders"], c["lines"], c["out"]):
+            run.case(l)
+            run.count("long_%s_%s" % (tn, order.split(":")[0]))
+            run.count("long_" + frag)
+            r = parse_lset(o)
+            base = {"module": m["text"], "type": tn, "model_type": c["ts"], "members": n, "order": order, "command_line": l, "c": o[:400],
+                    "value": "member k = (%d*k + %d) mod %d as %s" % (c["abm"] + (c["elem"],))}
+            if r is None or r.get("n") != str(n):
+                run.violation("oracle:decode", dict(base, what="a valid BER SET OF of %d members is not decoded (or the count is wrong)" % n), no_input=(order != "asc"))
+                continue
+            if order == "asc":
+                ref = r
+                md, mu, mo = c["model"]
+                for syn, e in (("der", md), ("cper", mu), ("coer", mo)):
+                    got = r.get(syn + "hex", "")
+                    okf = got.startswith("!") if e == "NONE" else got == e
+                    if not okf:
+                        run.violation("correspondence:Rt.%s" % syn, dict(base, what="C encoder output differs from the model on the sorted long list (%s)" % syn,
+                                                                         syntax=syn, model=e[:200], c=got[:200], model_digest=None if e == "NONE" else digest(bytes.fromhex(e)),
+                                                                         c_digest=r.get(syn)), no_input=True)
+                run.sample({"type": c["ts"], "members": n, "cper": r.get("cper"), "der": r.get("der")})
+                continue
+            if ref is None:
+                continue
+            for syn in SYNS:
+                run.count("cmp_" + syn)
+                if r.get(syn) == ref.get(syn):
+                    continue
+                if syn == "coer" and r["coer"] == digest(lset_coer(c["elem"], c["fixed"], lset_values(n, *c["abm"], order))):
+                    # exactly the members in memory order after the quantity: the open finding, whatever the other encoders do
+                    run.known_finding("C06-oer-setof-order", l)
+                    continue
+                run.violation("oracle:canonical(%s)" % syn, dict(base, what="two memory orders of the members of one SET OF value give different %s output (length:crc32)" % syn.upper(),
+                                                                 kind="long-" + order, reference_input=c["lines"][0], reference=ref.get(syn), got=r.get(syn)))
+    return m
+
+
+def frag_spec_layer(run, rng, tier, model):
+    """spec side of coq/Rt/CanonicalFrag.v: the extracted frag_whole / frag_each with a small fragment unit against the
+    wording of X.691 11.9 / 22.1 written in python (members of one width, so that the padded key is injective)"""
+    lines, exp = [], []
+    for _ in range(60 if tier == "quick" else 400):
+        K = rng.choice([1, 2, 3, 4, 5, 8])
+        w = 1 + rng.below(9)
+        n = rng.choice([0, 1, K - 1, K, K + 1, 2 * K, 2 * K + 1, 3 * K + 1, 4 * K, 4 * K + 1, 5 * K + 1, 9 * K + 2, rng.below(12 * K + 1)])
+        items = [format(rng.below(1 << w), "0%db" % w) for _ in range(max(n, 0))]
+        arg = ",".join(items) or "-"
+        lines += ["fragwhole %d %s" % (K, arg), "frageach %d %s" % (K, arg)]
+        exp += [py_fragments(K, items), py_fragments(K, items, True)]
+    rc, out, err = run_lines(model, lines, timeout=300)
+    if rc != 0 or len(out) != len(lines):
+        raise RuntimeError("model driver failed (frag): %s %s" % (rc, err[-500:]))
+    for l, o, e in zip(lines, out, exp):
+        run.case(l)
+        run.count("spec_" + l.split()[0])
+        if o != (e or "-"):
+            run.violation("spec:CanonicalFrag", {"what": "the extracted fragment loop disagrees with X.691 11.9 / 22.1 written in python", "command_line": l, "model": o, "expected": e}, no_input=True)
+
+
 # ---------------------------------------------------------------- (ii) (iii) (iv): hand-written modules
 
 def ival(z, pad=0):
@@ -311,6 +535,15 @@ def groups_wint(rng, tier):
     for tn, lo, hi in (("I", None, None), ("IC", 0, 255), ("IN", -70000, 70000), ("IS", 0, None), ("IE", 0, 7), ("IE", None, None)):
         for z in pick(lo, hi):
             out.append((tn, "intpad", [uni(2, ival(z))] + [uni(2, ival(z, p)) for p in pads()], z))
+    # directed: the two ends of the strip loop's test -- minimal contents beginning with 80 (after ff) and with 00 80 / 7f (after 00),
+    # at every width up to nine octets; ff 7f.. and 00 ff.. where nothing may be stripped
+    edge = []
+    for w in (1, 2, 3, 4, 8, 9):
+        edge += [-(1 << (8 * w - 1)), -(1 << (8 * w - 1)) + 1, (1 << (8 * w - 1)), (1 << (8 * w - 1)) - 1, -(1 << (8 * w - 1)) - 1]
+    for z in (edge if tier != "quick" else edge[:10] + [rng.choice(edge[10:]) for _ in range(6)]):
+        out.append(("I", "intpad", [uni(2, ival(z))] + [uni(2, ival(z, p)) for p in (1, 2 + rng.below(2))], z))
+        if rng.chance(1, 3):
+            out.append(("SI", "intpad", [uni(16, ctx(0, ival(z, p)) + ctx(1, ival(7, p)), True) for p in (0, 1, 3)], (z, 7, None)))
     for _ in range(n):
         a, b = rng.choice(pool), rng.choice([0, 7, 255])
         cs = [None, 3, 200][rng.below(3)]
@@ -397,10 +630,15 @@ WIDE_FINDINGS = {
 }
 
 
-def classify_hand(build, tn, kind, s, z):
+def classify_hand(build, tn, kind, s, z, j=None, r=None, rr=None):
     """known findings of the hand-written layer, by the narrowest description implemented here"""
     if kind in ("default-bool-ff", "default-ext-bool-ff") and s in ("der", "cper", "coer"):
         return "C06-default-boolean-true-octet"
+    if kind in ("default-ext", "default-root") and isinstance(z, dict) and j in z.get("ff", ()) and s in ("der", "cper", "coer"):
+        return "C06-default-boolean-true-octet"      # this input writes a BOOLEAN DEFAULT TRUE component as the octet ff
+    if kind == "setof-perm" and s == "coer" and r is not None and all(r[x] == rr[x] for x in ("der", "cxer", "cper")) \
+       and not r[s].startswith("!") and len(r[s]) == len(rr[s]) and sorted(bytes.fromhex(r[s])) == sorted(bytes.fromhex(rr[s])):
+        return "C06-oer-setof-order"                 # same octets in another order, the three sorting encoders agree
     return None
 
 
@@ -418,8 +656,12 @@ def wide_beyond_64(z):
 
 def hand_layer(run, rng, tier, model):
     builds = {}
+    dxtypes = dx_directed() + [dx_random(rng, i) for i in range(3 if tier == "quick" else 12)]
+    gx = [g for tn, ms in dxtypes for g in dgroups(tn, ms, rng, 6 if tier == "quick" else 10)]
+    gs = sany_groups(rng, tier)
     for bname, opts in (("wide", ("-fcompound-names", "-fwide-types")), ("native", ("-fcompound-names",))):
-        mods = [hand_module("WINT", WIDE_INT, WIDE_INT_TYPES), hand_module("DDEF", DEFAULTS, DEFAULTS_TYPES), hand_module("BBIT", BITS, BITS_TYPES)]
+        mods = [hand_module("WINT", WIDE_INT, WIDE_INT_TYPES), hand_module("DDEF", DEFAULTS, DEFAULTS_TYPES), hand_module("BBIT", BITS, BITS_TYPES),
+                hand_module("DDX", dx_module(dxtypes), [tn for tn, _ms in dxtypes]), hand_module("SANY", SANY, SANY_TYPES)]
         build_modules(mods, tag="c06" + bname, opts=opts, moddrv_extra=INC)
         for m in mods:
             if not m.get("exe"):
@@ -427,9 +669,25 @@ def hand_layer(run, rng, tier, model):
                                                "asn1c_out": m.get("asn1c_out", "")[-1200:], "build_log": m.get("build_log", "")[-1200:]}, no_input=True)
         builds[bname] = {m["name"]: m for m in mods}
     gw, gd, gb = groups_wint(rng, tier), groups_default(rng, tier), groups_bits(rng, tier)
+    # the model of DEFAULT elision (coq/Rt/CanonicalDefault.v) on every input of the generated extensible SEQUENCEs
+    mlines, mkeys = [], []
+    for gi, (tn, kind, inputs, z) in enumerate(gx):
+        ety, dr, da = dx_model(z["ms"])
+        for j, stored in enumerate(z["assign"]):
+            vs = dx_model_value(z["ms"], stored)
+            mlines += ["dder %s %s %s %s" % (dr, da, ety, vs), "duper 0 %s %s %s %s" % (dr, da, ety, vs), "doer %s %s %s %s" % (dr, da, ety, vs)]
+            mkeys.append((gi, j))
+    rcm, mo, me = run_lines(model, mlines, timeout=600)
+    if rcm != 0 or len(mo) != len(mlines):
+        raise RuntimeError("model driver failed (DEFAULT layer): %s %s" % (rcm, me[-800:]))
+    dxmodel = {k: mo[3 * i:3 * i + 3] for i, k in enumerate(mkeys)}
+    for (gi, j), (d, u, o) in dxmodel.items():
+        if (d, u, o) != tuple(dxmodel[(gi, 0)]):
+            run.violation("model:default_elision", {"what": "extracted model: DER/UPER/OER differ between two ways of storing the DEFAULT components of one value (contradicts C06_default_*_representation_independent)",
+                                                    "type": dx_model(gx[gi][3]["ms"])[0], "command_line": mlines[3 * mkeys.index((gi, j))]}, no_input=True)
     for bname, ms in builds.items():
         # ---- INTEGER padding and DEFAULT: groups of inputs
-        for mname, groups in (("WINT", gw), ("DDEF", gd)):
+        for mname, groups in (("WINT", gw), ("DDEF", gd), ("DDX", gx), ("SANY", gs)):
             m = ms[mname]
             if not m.get("exe"):
                 continue
@@ -449,6 +707,8 @@ def hand_layer(run, rng, tier, model):
                 run.count("%s_%s" % (bname, kind))
                 r = parse_canon(o)
                 base = {"module": m["text"], "asn1c_options": bname, "type": tn, "kind": kind, "value": repr(z), "command_line": l, "c": o}
+                if isinstance(z, dict) and "spelled" in z and j >= 0:
+                    base["spelled_out"] = z["spelled"][j]
                 if j == 0:
                     if r is None:
                         if wide_beyond_64(z) and bname == "native":
@@ -459,20 +719,29 @@ def hand_layer(run, rng, tier, model):
                             run.violation("oracle:decode", dict(base, what="canonical input of a group is not decoded"), no_input=True)
                         continue
                     ref[gi] = r
-                    continue
                 rr = ref.get(gi)
                 if rr is None:
                     continue
                 if r is None:
                     run.violation("oracle:decode", dict(base, what="a non-canonical BER form of a decodable value is not decoded (C03), so C06 cannot be evaluated here"), no_input=True)
                     continue
+                if mname == "DDX" and j not in z["ff"]:
+                    # faithfulness: the C on this very representation against the model (an input that writes a DEFAULT TRUE as ff
+                    # is the open finding C06-default-boolean-true-octet: the model's BOOLEAN has no octet)
+                    for s, e in zip(("der", "cper", "coer"), dxmodel[(gi, j)]):
+                        run.count("model_default_" + s)
+                        if (r[s].startswith("!") if e == "NONE" else r[s] == e):
+                            continue
+                        run.violation("correspondence:CanonicalDefault.%s" % s, dict(base, what="C encoder output differs from the model of DEFAULT elision on this representation",
+                                                                                      syntax=s, model=e, model_type=dx_model(z["ms"])[0], stored=dx_model_value(z["ms"], z["assign"][j])),
+                                      no_input=(rr[s] == r[s]))
                 if j == -1 and r.get("sites") == "0" and tn not in ("IC", "IN"):      # constrained types stay native long under -fwide-types
                     run.violation("harness:mutate", dict(base, what="in-memory INTEGER padding found no INTEGER_t to pad"), no_input=True)
                 for s in SYNS:
                     run.count("cmp_" + s)
                     if r[s] == rr[s]:
                         continue
-                    fid = classify_hand(bname, tn, kind, s, z)
+                    fid = classify_hand(bname, tn, kind, s, z, j, r, rr)
                     if fid:
                         run.known_finding(fid, l)
                         continue
@@ -572,6 +841,8 @@ def main(tier):
     try:
         model = model_build()
         mods = model_layer(run, rng, tier, model)
+        long_layer(run, rng, tier, model)
+        frag_spec_layer(run, rng, tier, model)
         hand_layer(run, rng, tier, model)
     except BuildError as e:
         run.violation("build", {"what": str(e)[-2500:]}, no_input=True)
@@ -580,6 +851,8 @@ def main(tier):
           "extraction: ExtrOcamlBasic only; OCaml 4.13.1", "lib/modgen.py (generator, effective tags), lib/c06_util.py (BER writer, permutations, XER variants, hand-written modules)",
           "harness/moddrv.c + harness/moddrv_c06.inc (in-memory mutator walks the structure through the descriptor tables); lib/modbuild.py; gcc + ASan/UBSan",
           "qsort is modelled as insertion sort: the theorems show the result does not depend on which sorting algorithm is used only where the order is antisymmetric on the keys"]
+    # violations with a failing input first (vlib prints one line per kind among the first 20)
+    run.violations.sort(key=lambda v: (bool(v.get("no_failing_input_found")), v["kind"].startswith("correspondence")))
     if os.environ.get("C06_DEBUG"):
         import collections
         cnt = collections.Counter((v["kind"], v.get("asn1c_options"), v.get("kind_of_group", v.get("type"))) for v in run.violations)
